@@ -81,6 +81,65 @@ def clause_a(repo, chk):
         chk.violation("A-fallback", ef.key, "sentinel", "the contraction routine returns None instead of raising when it declines", file="tf_pwa/einsum.py", line=none_ret[0].lineno)
 
 
+def clause_a2(repo, chk):
+    """index-order discipline inside the custom contraction (tf_pwa/einsum.py)"""
+    import itertools
+
+    from ..sym import Translator, Unmodelled
+
+    chk.rule("A-order", "every sort of contraction indices by the planner's order uses a total key (order[x], x): the planner can assign equal order values (depending on set iteration order), and all sites must break the tie identically, otherwise operands are reshaped against a different index order than the product assumes")
+    chk.rule("A-perm", "the permutation handed to tf.transpose brings an operand's index string into the sorted order: perm[k] = position in the operand of the k-th sorted index (decided for every permutation of 3 and 4 distinct indices)")
+    m = repo.mod("tf_pwa/einsum.py")
+    n = 0
+    for f in m.funcs.values():
+        for c in walk_local(f.node):
+            if not (isinstance(c, ast.Call) and isinstance(c.func, ast.Name) and c.func.id == "sorted"):
+                continue
+            key = [k.value for k in c.keywords if k.arg == "key"]
+            if not key or not isinstance(key[0], ast.Lambda):
+                continue
+            lam = key[0]
+            arg = lam.args.args[0].arg
+            body = lam.body
+            uses_map = any(isinstance(x, ast.Subscript) and isinstance(x.slice, ast.Name) and x.slice.id == arg and norm_text(x.value) in ("order", "base_order") for x in ast.walk(body))
+            if not uses_map:
+                continue
+            n += 1
+            total = isinstance(body, ast.Tuple) and isinstance(body.elts[-1], ast.Name) and body.elts[-1].id == arg
+            chk.instance("A-order", "%s: sorted(%s, key=lambda %s: %s) total order: %s" % (f.key, norm_text(c.args[0])[:40], arg, norm_text(body), total))
+            if not total:
+                chk.violation("A-order", f.key, "sort:%s" % norm_text(c.args[0])[:40], "`%s` orders contraction indices by the planner's order alone; equal order values (they occur, depending on PYTHONHASHSEED) are then resolved by the input order of this particular site, which differs between the common index order and the operands: the routine returns a wrong tensor instead of declining" % norm_text(c)[:90], file="tf_pwa/einsum.py", line=c.lineno)
+    if n < 3:
+        raise AnalysisError("fewer than 3 sorts by the planner's order found in tf_pwa/einsum.py")
+    # transposition convention
+    f = repo.fn("tf_pwa/einsum.py::tensor_einsum_reduce_sum.args_it")
+    trans = [x for x in walk_local(f.node) if isinstance(x, ast.Assign) and isinstance(x.targets[0], ast.Name) and x.targets[0].id == "trans"]
+    tcall = [x for x in walk_local(f.node) if isinstance(x, ast.Call) and norm_text(x.func) == "tf.transpose"]
+    if not trans or not tcall or norm_text(tcall[0].args[1]) != "trans":
+        raise AnalysisError("tensor_einsum_reduce_sum.args_it: `trans = ...; tf.transpose(j, trans)` not found")
+    tr = Translator(repo)
+    bad = None
+    cases = 0
+    for size in (3, 4):
+        letters = "abcd"[:size]
+        for perm in itertools.permutations(letters):
+            i_str = "".join(perm)
+            srt = list(letters)
+            try:
+                val = tr.eval(trans[0].value, {"i": i_str, "sorted_idx": srt, "j": None}, f.mod, 0)
+            except Unmodelled as e:
+                raise AnalysisError("transposition expression not modelled: %s" % e)
+            p_ = [int(v) for v in val]
+            cases += 1
+            # tf.transpose(a, perm): output axis k is input axis perm[k]
+            out = [i_str[p_[k]] for k in range(size)] if sorted(p_) == list(range(size)) else None
+            if out != srt and bad is None:
+                bad = (i_str, p_, out)
+    chk.instance("A-perm", "args_it: trans = %s reorders every operand into sorted index order (%d permutations of 3 and 4 indices): %s" % (norm_text(trans[0].value), cases, bad is None))
+    if bad is not None:
+        chk.violation("A-perm", f.key, "transpose-perm", "for operand indices %r the permutation %s gives axes %s instead of the sorted order: tf.transpose(a, perm) puts input axis perm[k] at output position k, so perm[k] must be the position of the k-th sorted index (the inverse permutation is only right for self-inverse reorderings)" % bad, file="tf_pwa/einsum.py", line=trans[0].lineno)
+
+
 def registered(repo):
     """registry decorator name -> list of (name, Cls)"""
     out = {k: [] for k in REGISTRIES}
@@ -197,5 +256,6 @@ def run(repo, chk, tier):
     res = Resolver(repo)
     chk.info("not decided: correctness of the custom contraction for every index expression x shape; graph/XLA compilation; numerical equality of strategies")
     clause_a(repo, chk)
+    clause_a2(repo, chk)
     clause_b(repo, chk, res)
     clause_c(repo, chk)
